@@ -1,4 +1,5 @@
 from __future__ import print_function
+import re
 import string
 import logging
 from bisect import bisect
@@ -24,6 +25,7 @@ if False:
 
 IMPORT_DELIMETERS = string.whitespace + '(,'
 IMPORT_END_DELIMETERS = string.whitespace + '),.;'
+DEF_NAME_RE = re.compile(r'(?:async(?:\s|\\\n)+)?(?:def|class)(?:\s|\\\n)+(\w+)')
 
 
 class Unresolved(object):
@@ -309,6 +311,18 @@ class SourceScope(Scope):
 
         return start
 
+    def find_def_name_loc(self, name, start):
+        # type: (str, loc_t) -> loc_t
+        """Position of the name in a def/class statement starting at `start`"""
+        sl, pos = start
+        source = '\n'.join(self.source.lines[sl-1:sl+50])
+        m = DEF_NAME_RE.match(source, pos)
+        if not m or m.group(1) != name:
+            return self.find_id_loc(' ' + name, start, 1, False)
+        pos = m.start(1)
+        return (sl + source.count('\n', 0, pos),
+                pos - source.rfind('\n', 0, pos) - 1)
+
     def add_attr_assign(self, scope, attr, value):
         # type: (Scope, Attribute, AST) -> None
         self._attr_assigns.append((scope, attr, value))
@@ -404,7 +418,7 @@ class FuncScope(Scope, Location, Resolvable):
         else:
             fnode = node  # type: FunctionDef  # type: ignore[assignment]
             self.name = fnode.name
-            self.declared_at = top.find_id_loc(' ' + fnode.name, np(fnode), 1, False)
+            self.declared_at = top.find_def_name_loc(fnode.name, np(fnode))
             self.location = get_first_body_node_loc(fnode.body) or (np(fnode.body[0])[0], np(fnode)[1] + 4)
             self.decorator_list = fnode.decorator_list
 
@@ -470,7 +484,7 @@ class ClassScope(Scope, Location, Resolvable):
         # type: (Scope, ClassDef, SourceScope) -> None
         Scope.__init__(self, parent, top)
         self.name = node.name
-        self.declared_at = top.find_id_loc(' ' + node.name, np(node), 1, False)
+        self.declared_at = top.find_def_name_loc(node.name, np(node))
         self.location = np(node.body[0])
         self.flow = self.top.add_flow(Flow('class', self))
         self._bases = node.bases
